@@ -15,6 +15,7 @@ import XotModel.Driver.Ffixed
 import XotModel.Driver.Fmap
 import XotModel.Driver.Parse
 import XotModel.Driver.Fclone
+import XotModel.Driver.Repair
 
 open XotModel.Driver
 
@@ -29,6 +30,7 @@ def dispatch (st : DState) (line : String) : DState × String :=
   | "ser" :: rest => (st, (handleSer st rest).getD "bad-request")
   | "scope" :: rest => (st, (handleScope st rest).getD "bad-request")
   | "build" :: rest => (st, (handleBuild st rest).getD "bad-request")
+  | "repair" :: rest => (st, (handleRepair st rest).getD "bad-request")
   | _ => (st, "bad-request")
 
 structure MState where
